@@ -60,6 +60,10 @@ void rt_force_fire (void);            /* Mode B: the next scheduling decision fi
 void rt_op_begin (const char *op);
 void rt_op_end (void);
 #define RT_OP(name_, stmt_) do { rt_op_begin (name_); stmt_; rt_op_end (); } while (0)
+/* same, declaring the absolute deadline (ns on the library's clock) the API call was given: a thread found asleep
+   WITHOUT a timer inside such a call is a C05 matter */
+void rt_op_deadline (int64_t deadline_ns);
+#define RT_OP_DL(name_, dl_ns_, stmt_) do { rt_op_begin (name_); rt_op_deadline (dl_ns_); stmt_; rt_op_end (); } while (0)
 /* sleeps (futex waits that really blocked or binary-semaphore waits) and atomic steps of
    the calling thread since its last rt_op_begin() */
 unsigned rt_op_sleeps (void);
